@@ -176,6 +176,38 @@ pub fn run(r: &mut Rec) {
             square_case(r, &format!("square random {}", n), &a);
         }
     }
+    // hierarchical zero / all-ones structure: extreme half-differences at several recursion levels
+    let hsizes: Vec<usize> = if r.thorough { vec![33, 40, 64, 65, 66, 67, 68, 70, 96, 129, 130, 131, 140, 200, 257, 300] } else { vec![65, 66, 67, 70, 96, 130, 131] };
+    for &n in &hsizes {
+        let reps = if r.thorough { 10 } else { 5 };
+        for rep in 0..reps {
+            let a = hier(&mut rng, n);
+            let m = if rep % 3 == 2 { n + 1 + rng.below(n as u64 / 2) as usize } else { n };
+            let b = if rep % 3 == 0 { a.clone() } else { hier(&mut rng, m) };
+            one_case(r, &format!("hier {}x{} rep {}", n, m, rep), &a, &b, 1);
+        }
+        // high half all ones over a zero / tiny low half, on both operands
+        let mut a = vec![0u64; n];
+        for k in n / 2..n {
+            a[k] = u64::MAX;
+        }
+        let mut b = a.clone();
+        one_case(r, &format!("highones {}", n), &a, &b, 1);
+        b[0] = 1;
+        a[n / 4] = u64::MAX - 1;
+        one_case(r, &format!("highones tiny {}", n), &a, &b, 1);
+    }
+    // Toom-3 with the longer operand 1.25x .. 2x the shorter
+    let tshapes: Vec<(usize, usize)> = if r.thorough {
+        vec![(257, 320), (257, 385), (257, 400), (257, 450), (258, 500), (300, 450), (300, 599), (333, 500), (334, 500), (260, 910), (384, 700)]
+    } else {
+        vec![(257, 330), (257, 400), (258, 470)]
+    };
+    for &(n, m) in &tshapes {
+        let a = digits(&mut rng, n, Pat::Random);
+        let b = digits(&mut rng, m, Pat::Ones);
+        one_case(r, &format!("toom ratio {}x{}", n, m), &a, &b, 1);
+    }
     // zero digits inside / at the low end of both operands (strip path, zero rows)
     for &n in &[33usize, 40, 70, 130] {
         if !r.thorough && n > 70 {
